@@ -82,6 +82,29 @@ def build_harness(release=False):
     return binary, out_dir
 
 
+def build_harness_config():
+    """second build configuration of the same harness: optimised (`--release`: no debug assertions, no overflow checks,
+    no unsafe-precondition checks) and, when the nightly toolchain is present, instrumented with AddressSanitizer so that an
+    out-of-bounds read or write of the unchecked internals is a report instead of silent corruption.
+    Returns (binary, label) or (None, reason)."""
+    tdir = os.path.join(HARNESS, "target", "cfg")
+    env = {"CARGO_TARGET_DIR": tdir}
+    have_nightly = os.environ.get("VERIF_NO_NIGHTLY") != "1" and run(["cargo", "+nightly", "--version"]).returncode == 0
+    if have_nightly:
+        env2 = dict(env)
+        env2["RUSTFLAGS"] = "-Zsanitizer=address"
+        p = run(["cargo", "+nightly", "build", "--offline", "--release", "--target", "x86_64-unknown-linux-gnu"],
+                cwd=HARNESS, env=env2, timeout=1800)
+        b = os.path.join(tdir, "x86_64-unknown-linux-gnu", "release", "owl-harness")
+        if p.returncode == 0 and os.path.exists(b):
+            return b, "release+asan (nightly, opt-level 3, no debug assertions, AddressSanitizer)"
+    p = run(["cargo", "build", "--offline", "--release"], cwd=HARNESS, env=env, timeout=1800)
+    b = os.path.join(tdir, "release", "owl-harness")
+    if p.returncode == 0 and os.path.exists(b):
+        return b, "release (opt-level 3, no debug assertions)"
+    return None, "second configuration did not build: " + (p.stderr or "")[-300:]
+
+
 def translate(out_dir):
     p = run([sys.executable, os.path.join(VERIF, "tools", "translate.py"), "--out-dir", out_dir, "--repo", REPO,
              "--dest", GEN])
@@ -277,6 +300,14 @@ def run_streams(binary, cases, tag):
     with open(cpath, "w") as f:
         f.write("\n".join(cases) + ("\n" if cases else ""))
     impl = run_harness_resilient(binary, cases, cpath, ipath, tag)
+    model, oracle = run_driver(cases, impl, tag)
+    return impl, model, oracle
+
+
+def run_driver(cases, impl, tag):
+    cpath = os.path.join(WORK, f"{tag}.cases.txt")
+    ipath = os.path.join(WORK, f"{tag}.impl.txt")
+    mpath = os.path.join(WORK, f"{tag}.model.txt")
     # the driver is single-threaded: split into chunks and run in parallel
     n = len(cases)
     jobs = max(1, min(16, n // 200 + 1))
@@ -308,7 +339,26 @@ def run_streams(binary, cases, tag):
     while len(model) < n:
         model.append("<missing>")
         oracle.append("-")
-    return impl, model, oracle
+    return model, oracle
+
+
+def config_pass(binary2, cases, impl, tag):
+    """the same case lines through the second build configuration. Answers equal to the first configuration's inherit
+    its verdicts; differing answers are judged afresh by the model and the oracle."""
+    cpath = os.path.join(WORK, f"{tag}.cfg.cases.txt")
+    ipath = os.path.join(WORK, f"{tag}.cfg.impl.txt")
+    impl2 = run_harness_resilient(binary2, cases, cpath, ipath, tag + ".cfg")
+    diff = [i for i in range(len(cases)) if impl2[i] != impl[i] and impl2[i] != NOT_RUN and impl[i] != NOT_RUN]
+    bad, mism, judged = [], [], {}
+    if diff:
+        sub = [cases[i] for i in diff]
+        subimpl = [impl2[i] for i in diff]
+        m2, o2 = run_driver(sub, subimpl, tag + ".cfg")
+        b, m = compare(sub, subimpl, m2, o2)
+        bad = [diff[j] for j in b]
+        mism = [diff[j] for j in m]
+        judged = {diff[j]: (m2[j], o2[j]) for j in range(len(diff))}
+    return impl2, diff, bad, mism, judged
 
 
 def strip_rt(s):
@@ -360,6 +410,7 @@ def main():
     cfg = PROPS[prop]
     tier = a.tier if a.tier in ("quick", "thorough") else "quick"
     seed = int(os.environ.get("VERIF_SEED", "20260926"))
+    os.environ.setdefault("ASAN_OPTIONS", "detect_leaks=0")
     t0 = time.time()
     violations = []          # (kind, replay path, note)
     known_hits = []
@@ -422,7 +473,13 @@ def main():
         if not cases:
             print(f"VIOLATION property={prop} replay={a.replay} no-failing-input-found")
             return 1
-        impl, model, oracle = run_streams(binary, cases, f"{prop}.replay")
+        rbin = binary
+        if any(e.get("configuration") for e in rep.get("cases", [])):
+            b2, label2 = build_harness_config()
+            if b2:
+                rbin = b2
+                print(f"replaying in configuration: {label2}")
+        impl, model, oracle = run_streams(rbin, cases, f"{prop}.replay")
         bad, mism = compare(cases, impl, model, oracle)
         for i, c in enumerate(cases):
             print(f"case: {c}\n impl:   {impl[i][:300]}\n model:  {model[i][:300]}\n oracle: {oracle[i][:300]}")
@@ -466,6 +523,23 @@ def main():
     bad, mism = compare(cases, impl, model, oracle)
     log(f"oracle-bad={len(bad)} model-mismatch={len(mism)}")
 
+    # ---- 3b. the same cases in the second build configuration (optimised, no debug assertions; AddressSanitizer)
+    cfg_info = {"configuration": None}
+    cfg_bad, cfg_mism, cfg_judged, impl2 = [], [], {}, None
+    if os.environ.get("VERIF_NO_CONFIG_PASS") != "1":
+        with Lock("build"):
+            binary2, label2 = build_harness_config()
+        if binary2 is None:
+            cfg_info = {"configuration": None, "skipped": label2}
+            log(f"second configuration skipped: {label2[:200]}")
+        else:
+            impl2, cfg_diff, cfg_bad, cfg_mism, cfg_judged = config_pass(binary2, cases, impl, prop)
+            cfg_info = {"configuration": label2, "cases": len(cases), "answers_differing_from_debug": len(cfg_diff),
+                        "oracle_bad": len(cfg_bad), "model_mismatch": len(cfg_mism),
+                        "aborts": sum(1 for x in impl2 if x.startswith(ABORTED + ":"))}
+            log(f"second configuration [{label2.split(' ')[0]}]: differing={len(cfg_diff)} oracle-bad={len(cfg_bad)} "
+                f"model-mismatch={len(cfg_mism)}")
+
     # ---- 4. verdict
     known_open, _ = load_known(prop)
     known_cases = {k: what for k, what in known_open}
@@ -480,6 +554,25 @@ def main():
 
     def entry(i):
         return {"case": cases[i], "impl": impl[i], "model": model[i], "oracle": oracle[i]}
+
+    def entry2(i):
+        m2, o2 = cfg_judged.get(i, (model[i], oracle[i]))
+        return {"case": cases[i], "configuration": cfg_info.get("configuration"), "impl": impl2[i],
+                "impl_debug_build": impl[i], "model": m2, "oracle": o2}
+
+    cfg_new_bad = [i for i in cfg_bad if cases[i] not in known_cases and i not in set(new_bad)]
+    if cfg_new_bad:
+        sel = shrink_cases(cfg_new_bad, cases)
+        rp = write_replay(prop, seed, "failing-input", [entry2(i) for i in sel],
+                          {"total_failing": len(cfg_new_bad), "configuration": cfg_info.get("configuration"),
+                           "note": "fails in the second build configuration only (same input passes in the debug build)",
+                           "obligation_broken": obligation_broken})
+        violations.append(("failing-input", rp, ""))
+    elif cfg_mism and not new_bad and not mism and not obligation_broken:
+        rp = write_replay(prop, seed, "correspondence", [entry2(i) for i in shrink_cases(cfg_mism, cases)],
+                          {"broken": f"impl ({cfg_info.get('configuration')}) != Impl model on {len(cfg_mism)} cases",
+                           "total_mismatch": len(cfg_mism)})
+        violations.append(("correspondence", rp, "no-failing-input-found"))
 
     if gen_abort:
         rp = write_replay(prop, seed, "failing-input", [],
@@ -516,6 +609,7 @@ def main():
 
     cov = coverage(cases, impl, oracle, model, stats, n_corpus)
     cov["leanchecker"] = leanchecker
+    cov["second_configuration"] = cfg_info
     write_evidence(prop, tier, seed, cfg, t0, cov, len(violations), thm_names, offenders, axioms, stale,
                    obligation_broken=obligation_broken, known=len(set(known_hits)))
     for kind, rp, tail in violations:
